@@ -285,6 +285,30 @@ def const(node, env=None):
         return v
     if isinstance(node, ast.IfExp):
         return const(node.body, env) if const(node.test, env) else const(node.orelse, env)
+    if isinstance(node, (ast.GeneratorExp, ast.ListComp, ast.SetComp)):
+        # comprehension over foldable iterables (finite enumeration by the checker)
+        out = []
+
+        def rec(i, e):
+            if i == len(node.generators):
+                out.append(const(node.elt, e))
+                return
+            g = node.generators[i]
+            if g.is_async:
+                raise NotConst('async comprehension')
+            for v in const(g.iter, e):
+                e2 = dict(e)
+                if isinstance(g.target, ast.Name):
+                    e2[g.target.id] = v
+                elif isinstance(g.target, ast.Tuple) and all(isinstance(x, ast.Name) for x in g.target.elts):
+                    for x, vv in zip(g.target.elts, v):
+                        e2[x.id] = vv
+                else:
+                    raise NotConst(norm(g.target))
+                if all(const(c, e2) for c in g.ifs):
+                    rec(i + 1, e2)
+        rec(0, dict(env))
+        return set(out) if isinstance(node, ast.SetComp) else out
     if isinstance(node, (ast.Tuple, ast.List)):
         v = [const(e, env) for e in node.elts]
         return tuple(v) if isinstance(node, ast.Tuple) else v
@@ -305,7 +329,7 @@ def const(node, env=None):
         fn = node.func.id
         args = [const(a, env) for a in node.args]
         table = {'range': range, 'bytearray': bytearray, 'bytes': bytes, 'len': len, 'int': int, 'tuple': tuple,
-                 'list': list, 'min': min, 'max': max, 'sum': sum, 'frozenset': frozenset, 'set': set,
+                 'list': list, 'min': min, 'max': max, 'sum': sum, 'frozenset': frozenset, 'set': set, 'sorted': sorted,
                  'bool': bool, 'pow': pow, 'abs': abs, 'type': type}
         if fn in table:
             return table[fn](*args)
@@ -319,6 +343,12 @@ def const(node, env=None):
             and all(isinstance(a, ast.Constant) for a in node.args):
         v = const(node.func.value, env)
         return getattr(v, node.func.attr)(*[a.value for a in node.args])     # str.encode / bytes.decode only
+    if isinstance(node, ast.Call) and isinstance(node.func, ast.Attribute) and not node.keywords and node.func.attr in (
+            'intersection', 'difference', 'union', 'symmetric_difference', 'isdisjoint', 'issubset', 'issuperset', 'count',
+            'bit_length', 'startswith', 'endswith'):
+        v = const(node.func.value, env)
+        if isinstance(v, (set, frozenset, bytes, bytearray, tuple, list, str, int, range)):
+            return getattr(v, node.func.attr)(*[const(a, env) for a in node.args])     # pure methods of builtin values only
     if isinstance(node, ast.Call) and norm(node.func) == 'memoryview' and len(node.args) == 1:
         return const(node.args[0], env)
     if isinstance(node, ast.Call) and isinstance(node.func, ast.Attribute) and node.func.attr == 'fromhex' \
